@@ -6,19 +6,19 @@ use crate::sched::{self, ctx};
 use crate::util::{self, clock};
 use sentinel_core::base::{ConcurrencyStat, EntryStrongPtr, MetricEvent, StatNode};
 use sentinel_core::stat;
-use serde::Serialize;
+use serde::{Deserialize, Serialize};
 use std::sync::{Arc, Mutex};
 
 pub struct C14;
 
-#[derive(Debug, Clone, Serialize)]
+#[derive(Debug, Clone, Serialize, Deserialize)]
 pub struct ThreadSpec {
     pub inbound: bool,
     /// (batch, exit it) per build
     pub pairs: Vec<(u32, bool)>,
 }
 
-#[derive(Debug, Clone, Serialize)]
+#[derive(Debug, Clone, Serialize, Deserialize)]
 pub struct Case {
     pub threads: Vec<ThreadSpec>,
     /// 0 fresh resource, 1 existing resource touched in the same bucket, 2 existing resource whose
@@ -200,9 +200,23 @@ impl Property for C14 {
     fn describe(&self, bytes: &[u8]) -> Option<serde_json::Value> {
         serde_json::to_value(decode(&mut Bytes::new(bytes))).ok()
     }
+    fn run_decoded(&self, decoded: &serde_json::Value, cfg: &RunCfg) -> Option<Verdict> {
+        let case: Case = serde_json::from_value(decoded.clone()).ok()?;
+        Some(self.run_case(&case, "", cfg))
+    }
     fn run(&self, bytes: &[u8], cfg: &RunCfg) -> Verdict {
         let case = decode(&mut Bytes::new(bytes));
-        match execute(&case, &case.schedule, &util::hex(bytes)) {
+        self.run_case(&case, &util::hex(bytes), cfg)
+    }
+    fn extra(&self, tier: Tier) -> Option<Result<(u64, serde_json::Value), Failure>> {
+        self.extra_impl(tier)
+    }
+}
+
+impl C14 {
+    fn run_case(&self, case: &Case, hex: &str, cfg: &RunCfg) -> Verdict {
+        let case = case.clone();
+        match execute(&case, &case.schedule, hex) {
             Err((clause, detail)) => Verdict::Fail(Failure { clause: clause.clone(), key: format!("C14|{}", clause), detail, decoded: serde_json::to_value(&case).unwrap() }),
             Ok(o) => {
                 let mut classes = vec![["fresh-resource", "existing-resource", "existing-resource-stale-slot"][case.existing_resource as usize]];
@@ -219,7 +233,7 @@ impl Property for C14 {
             }
         }
     }
-    fn extra(&self, tier: Tier) -> Option<Result<(u64, serde_json::Value), Failure>> {
+    fn extra_impl(&self, tier: Tier) -> Option<Result<(u64, serde_json::Value), Failure>> {
         // exhaustive: two threads, one build/exit pair each, fresh resource, fixed clock
         let case = Case {
             threads: vec![ThreadSpec { inbound: false, pairs: vec![(1, true)] }, ThreadSpec { inbound: true, pairs: vec![(2, true)] }],
